@@ -222,6 +222,12 @@ pub fn parse_dynamic_string(input: &str) -> Result<DynamicString, CompilerError>
 }
 
 pub fn parse_divert(input: &str) -> Result<Divert, CompilerError> {
+    // (`-> ->` : an arrow is not a target)
+    if input.trim_start().starts_with("->") {
+        return Err(CompilerError::invalid_source(
+            "expected divert target after '->'".to_owned(),
+        ));
+    }
     if let Some((target, args)) = parse_call_like(input)? {
         return Ok(Divert {
             target,
